@@ -365,4 +365,37 @@ def StreamParams.maximumPayloadSize (p : Profile) (sp : StreamParams) : R Nat :=
   let b ← addW p 64 a sp.payloadFinal1Size
   addW p 64 b sp.payloadFinal2Size
 
+/-! ## `StreamHandle` (the part C15 speaks about: which parameters the receive loop runs with) -/
+
+/-- `StreamError` variants that `start_streaming_loop` can return -/
+inductive StreamErr where
+  | io
+  | inStreaming
+  deriving Repr, DecidableEq
+
+/-- `StreamHandle`: its `params` field and whether a receive loop is running
+(`cancellation_tx.is_some()`). -/
+structure StreamHandle where
+  params : StreamParams
+  running : Bool
+  deriving Repr, DecidableEq
+
+/-- `StreamHandle::new`: `StreamParams::default()`, no loop -/
+def StreamHandle.new : StreamHandle := ⟨⟨0, 0, 0, 0, 0, 0, 0⟩, false⟩
+
+/-- `StreamHandle::start_streaming_loop(sender, ctrl)`: the parameters are read back from the
+device with `StreamParams::from_control` on EVERY start (failure ⇒ `StreamError::Io`), stored in
+the handle, then `InStreaming` if a loop is already running; otherwise the loop thread is spawned
+with a clone of exactly these parameters — the returned value. -/
+def startStreamingLoop (sh : StreamHandle) (st : St) : Res StreamErr StreamParams × StreamHandle × St :=
+  match fromControl st with
+  | (.ok sp, st') =>
+    if sh.running then (.err .inStreaming, { sh with params := sp }, st')
+    else (.ok sp, ⟨sp, true⟩, st')
+  | (.err _, st') => (.err .io, sh, st')
+  | (.panic, st') => (.panic, sh, st')
+
+/-- `stop_streaming_loop` -/
+def stopStreamingLoop (sh : StreamHandle) : StreamHandle := { sh with running := false }
+
 end CamVerif.Streaming
